@@ -1,6 +1,7 @@
 package main
 
 import (
+	"bytes"
 	"encoding/hex"
 	"encoding/json"
 	"fmt"
@@ -85,6 +86,7 @@ func roundTrip(t *tr.Writer, id int, g gen.Gen, v gen.Val, mode string, extra tr
 	b, encErr, encPanic := safeMarshal(v.V.Interface(), simple)
 	rec := tr.Rec{"ev": "one", "case": id, "kind": "rt", "shape": g.Name, "class": v.Class, "mode": mode, "leaf": g.Leaf,
 		"encerr": none(encErr), "encpanic": none(encPanic), "in": fmtx.AbsValue(v.V), "nvals": 1, "errmsg": "none"}
+	rec["haserr"] = containsErr(rec["in"].(fmtx.Graph))
 	if in := rec["in"].(fmtx.Graph); in.Root["k"] == "error" {
 		if b, err := hex.DecodeString(in.Root["s"].(string)); err == nil {
 			rec["errmsg"] = string(b)
@@ -232,4 +234,11 @@ func runFmt(a Args, which string) tr.Summary {
 	sum.Nontrivial = len(cells)
 	sum.Extra = tr.Rec{"type_shapes": len(gs), "exhaustive": true}
 	return sum
+}
+
+// containsErr reports whether an error value occurs anywhere in the graph (decoding then reports it through
+// the decoder's error by design)
+func containsErr(g fmtx.Graph) bool {
+	b, _ := json.Marshal(g)
+	return bytes.Contains(b, []byte(`"k":"error"`))
 }
